@@ -447,9 +447,108 @@ func (a *a6) bounds() {
 	c.Floor("A6-bounds", total, 250)
 }
 
-func (a *a6) progress()  {}
-func (a *a6) caps()      {}
-func (a *a6) recursion() {}
+// progress: every loop of the scope whose exit test depends on a cursor (an integer or slice
+// phi of the loop header) strictly advances that cursor on every back edge.
+func (a *a6) progress() {
+	c, p := a.c, a.p
+	n := 0
+	for _, fn := range a.scopeFuncs() {
+		pv := a.db.proverFor(fn)
+		k := 0
+		for _, h := range fn.Blocks {
+			var back []int
+			for i, pr := range h.Preds {
+				if h.Dominates(pr) {
+					back = append(back, i)
+				}
+			}
+			if len(back) == 0 {
+				continue
+			}
+			k++
+			n++
+			okey := fmt.Sprintf("%s:loop#%d", FnName(fn), k)
+			pos := p.Pos(h.Instrs[len(h.Instrs)-1].Pos())
+			if pos == "-" {
+				for _, in := range h.Instrs {
+					if in.Pos().IsValid() {
+						pos = p.Pos(in.Pos())
+						break
+					}
+				}
+			}
+			// candidate cursors: phis of the header
+			var phis []*ssa.Phi
+			for _, in := range h.Instrs {
+				if phi, ok := in.(*ssa.Phi); ok {
+					phis = append(phis, phi)
+				} else {
+					break
+				}
+			}
+			// range-over-integer / range-over-slice loops generated by the compiler always advance
+			proved := ""
+			for _, phi := range phis {
+				_, isSl := phi.Type().Underlying().(*types.Slice)
+				if !isSl && !isIntLike(phi.Type()) {
+					continue
+				}
+				inc, dec := true, true
+				for _, i := range back {
+					pr := h.Preds[i]
+					var facts []cons
+					facts = append(facts, pv.phiInv...)
+					pv.domFacts(pr, nil, &facts)
+					var cur, next lin
+					if isSl {
+						cur = atomLin(atom{v: phi, isLen: true})
+						next = pv.lenLin(phi.Edges[i], &facts)
+					} else {
+						cur = atomLin(atom{v: phi})
+						next = pv.toLin(phi.Edges[i], &facts)
+					}
+					if !entails(facts, gt(next, cur).e) {
+						inc = false
+					}
+					if !entails(facts, gt(cur, next).e) {
+						dec = false
+					}
+				}
+				if inc || dec {
+					proved = phi.Comment
+					if proved == "" {
+						proved = phi.Name()
+					}
+					break
+				}
+			}
+			if proved != "" {
+				c.Pass("A6-progress", okey, pos, "cursor "+proved+" strictly advances on every back edge")
+				continue
+			}
+			// range over a channel: each iteration consumes one message; the loop ends when the channel is closed
+			chanLoop := false
+			for _, in := range h.Instrs {
+				if u, ok := in.(*ssa.UnOp); ok && u.Op == token.ARROW && u.CommaOk {
+					chanLoop = true
+				}
+			}
+			if chanLoop {
+				c.Pass("A6-progress", okey, pos, "range over a channel: every iteration consumes a message; termination needs the channel to be closed, which the goroutine-join rule of C10 covers")
+				continue
+			}
+			if r := findRow(a.rows, "progress", okey); r != nil {
+				r.used = true
+				c.Pass("A6-progress", okey, pos, "reviewed: "+r.reason)
+				continue
+			}
+			c.Fail("A6-progress", okey, pos, "no loop variable provably advances on every back edge: the loop may not terminate on crafted input")
+		}
+	}
+	c.Floor("A6-progress", n, 30)
+}
+
+
 
 // searchLenPre: find the smallest constant k of the function such that assuming len(P) >= k for a
 // slice parameter P occurring in the goal makes the obligation provable.
